@@ -1070,7 +1070,8 @@ func (fv *FuncVC) doPanic(x *ssa.Panic) {
 		if err != nil {
 			fv.abort("panics clause: %v", err)
 		}
-		env := fv.newEnv(fv.entry, fv.entry)
+		// parameters denote entry values, heaps and ghosts the state at the panic
+		env := fv.newEnv(fv.cur, fv.entry)
 		fv.oblige("panic", "", env.boolExpr(e, fv.FC.Pos), x.Pos(), "panic only when the contract allows it")
 	} else {
 		fv.oblige("panic", "", tFalse, x.Pos(), "explicit panic is unreachable")
